@@ -106,10 +106,10 @@ Definition parse_list_type : P bool :=
   else if str_eqb v s_unordered_list then ret false
   else failP.
 
-(* int(digits) - 1, rendered by str(): "-1" for 0.  int() of more than int_max_str_digits
-   digits raises ValueError, which nothing catches: Crash 4 *)
+(* _parse_level: int(digits) - 1, rendered by str(): "-1" for 0.  int() of more than
+   int_max_str_digits digits raises ValueError, which _parse_level turns into LineParseError *)
 Definition level_string (digits : str) : outcome str :=
-  if N.ltb int_max_str_digits (N.of_nat (length digits)) then Crash 4
+  if N.ltb int_max_str_digits (N.of_nat (length digits)) then LineError
   else let n := N_of_digits digits in
        Ok (if N.eqb n 0 then [45; 49] else str_of_N (n - 1)).
 
